@@ -452,6 +452,13 @@ pub fn generate(seed: u64, tier: Tier) -> Case {
             params.notes.push("env:reference_build_into_empty_dir".into());
         }
     }
+    if rng.chance(1, 8) {
+        if let Some((from, to)) = crate::mutate::coincide(&mut rng, &mut worlds, true) {
+            params.notes.push(format!("env:name_coincidence"));
+            params.notes.push(format!("coincidence:{from}->{to}"));
+            params.intended_valid = false;
+        }
+    }
     Case {
         property: "C14".into(),
         family: family.into(),
